@@ -200,7 +200,12 @@ def _c12_raw_fstring(v):
     import re
     lt = d.get('err_span_text') or d.get('line_text') or ''
     # an f-string (raw or not) whose text contains a backslash directly before a brace (or \\N{ in a raw one)
-    return v['kind'] == 'a_error_node' and bool(re.search(r'(?i)(?<![a-z0-9_])(f|rf|fr)("|\')', lt)) \
+    if v['kind'] != 'a_error_node':
+        # the mis-tokenized f-string can also surface as an issue on its own line (e.g. 'cannot mix bytes and nonbytes literals')
+        lt = d.get('line_text') or ''
+        if 'fstring' not in (d.get('ancestors') or []) and 'strings' not in (d.get('ancestors') or []):
+            return False
+    return bool(re.search(r'(?i)(?<![a-z0-9_])(f|rf|fr)("|\')', lt)) \
         and ('\\{' in lt or '\\}' in lt or bool(re.search(r'(?i)(rf|fr)("|\').*\\N\{', lt, re.S)))
 
 
@@ -267,7 +272,6 @@ C20_STACK_SITES = [
     ('AttributeError', '_visit_part', 'if len(indentation) > len(n.indentation):'),
 ]
 C20_RECOVERED_SHAPE_SITES = [
-    ('AttributeError', '_defined_names', "if trailer.children[0] == '.':"),
     ('AttributeError', '_is_magic_name', "return name.value.startswith('__') and name.value.endswith('__')"),
     ('IndexError', '_analyse_non_prefix', 'right = comparison.children[index + 1]'),
 ]
@@ -330,9 +334,9 @@ def _c12_typeparam_global(v):
 
 @classifier('c12_del_debug_le_38')
 def _c12_del_debug(v):
-    """F-C12-16: `del __debug__` is accepted by CPython <= 3.8; parso reports 'cannot assign to __debug__'"""
+    """F-C12-16: `del __debug__` is accepted by CPython <= 3.9; parso reports 'cannot assign to __debug__'"""
     d, msg, mech, ver = _c12(v)
-    return ver <= (3, 8) and msg == 'cannot assign to __debug__' and 'del_stmt' in (d.get('ancestors') or []) and d.get('leaf_value') == '__debug__'
+    return ver <= (3, 9) and msg == 'cannot assign to __debug__' and 'del_stmt' in (d.get('ancestors') or []) and d.get('leaf_value') == '__debug__'
 
 
 @classifier('c12_annotated_global_at_module_level_ge_38')
@@ -349,4 +353,21 @@ def _c12_paren_star(v):
     d, msg, mech, ver = _c12(v)
     anc = d.get('ancestors') or []
     return ver <= (3, 8) and msg == "can't use starred expression here" and d.get('leaf_value') == '(' and len(anc) > 2 \
-        and anc[1] == 'atom' and anc[2] in ('arglist', 'trailer', 'argument')
+        and anc[1] == 'atom' and anc[2] in ('arglist', 'trailer', 'argument', 'classdef')
+
+
+@classifier('c10_fstring_backslash_brace')
+def _c10_fs_bs(v):
+    """F-C10-3 (same mechanism as F-C12-1): an f-string whose text has a backslash directly before a brace is tokenized
+    differently; the first difference lies at or after that f-string's line"""
+    d = v.get('detail') or {}
+    return v['kind'].startswith('token_') and d.get('fstring_backslash_brace_first_line') is not None and d.get('line') is not None \
+        and d['line'] >= d['fstring_backslash_brace_first_line']
+
+
+@classifier('c12_await_in_unevaluated_annotation')
+def _c12_await_ann(v):
+    """F-C12-19: `await` inside the annotation of an annotated assignment in a (non-async) function body: CPython does not
+    compile such annotations, so it never checks the await"""
+    d, msg, mech, ver = _c12(v)
+    return msg == "'await' outside async function" and 'annassign' in (d.get('ancestors') or []) and mech.get('innermost_scope') == 'funcdef'
